@@ -353,6 +353,11 @@ def main():
                 v2 = [(s, m) for (s, m) in v2 if not matches_known(pid, s, m, kf)]
                 if v2:
                     found = v2[0]
+        if not found and not replay and pid in families.META:
+            big = families.META[pid](seed + 1000, tier, bins, n=400 if tier == "quick" else 3000)
+            big = [(sc, m) for (sc, m) in big if not matches_known(pid, sc, m, kf)]
+            if big:
+                found = big[0]
         nrep += 1
         if found:
             path = write_replay(pid, found[0], ["property %s violated on the implementation (found by mutating a diverging scenario)" % pid] + found[1][:5] + broken, nrep)
